@@ -75,8 +75,9 @@ def verify_first(ctx):
     ctx.check(len(sg) == 1, vb.key, 'recomputes sign', 'verify does not recompute the signature with sign', '', vb.where())
     if len(sg) == 1:
         s = sg[0]
-        a1 = [r for r in root_descr(vb, s.args[1]) if r[0] == 'param']
-        a2 = [r for r in root_descr(vb, s.args[2]) if r[0] == 'param']
+        # whatever the parameter order: one argument is the key's id, one its secrets
+        roots = [r for a in s.args for r in root_descr(vb, a) if r[0] == 'param']
+        a1 = a2 = roots
         ctx.check(any(r[2][-1:] == ('id',) for r in a1) and any(r[2][-1:] == ('secrets',) for r in a2), vb.key, 'sign(msk, usk.id, usk.secrets)',
                   'the recomputed MAC does not cover the key\'s own id and secrets', 'sign(msk, &usk.id, &usk.secrets)', s.where())
         gs = [g for g in eq_guards(vb) if 'Option<[u8; ' in (g[0].self_ty or '')]
@@ -188,6 +189,30 @@ def mac_covers(ctx):
     first_secret = roles.index('secret') if 'secret' in roles else len(roles)
     ctx.check(roles and roles[0] == 'marker' and 'right' in roles and roles.index('right') < first_secret, sb.key, 'order: id, right, secrets',
               'the MAC inputs are not absorbed in the order id, right, secrets (%s)' % roles, ' '.join(roles), sb.where())
+
+
+DROPPING = r'^std::iter::Iterator::(filter|filter_map|skip|take|take_while|skip_while|step_by|nth|last|find|map_while|flatten|flat_map)$'
+
+
+@rule('C08', 'mac-covers-every-element', configs=('default', 'p256'))
+def mac_covers_every_element(ctx):
+    """'... any modification — rights added, removed ...': the MAC walks EVERY right and EVERY secret of the key. Neither sign
+    nor the crate-local iterators it walks the key with (RevisionVec::iter, UserId::iter, ...) drop elements: no filter / skip /
+    take / step_by style adaptor on the way (a right the walk skips can be added to a key without invalidating its signature)."""
+    F = ctx.F
+    sb = F.fn('core::primitives::sign')
+    bodies = lib.reach_bodies(F, sb.key, precise=True)
+    n = 0
+    for fb in bodies:
+        root = fb.root or fb.key
+        if not (root == sb.key or root.startswith('data_struct::') or root.startswith('core::UserId')):
+            continue
+        n += 1
+        bad = fb.calls(DROPPING)
+        ctx.check(not bad, root, 'walks every element',
+                  '%s, which the signature walks the key with, drops elements (%s, line %d): what it skips is not covered by the MAC'
+                  % (fb.key, bad[0].name if bad else '', bad[0].ln if bad else 0), 'no element-dropping adaptor', fb.where())
+    ctx.floor(n, 3, 'bodies the signature walks the key with')
 
 
 @rule('C08', 'mac-framing', configs=('default',))
